@@ -6,7 +6,7 @@ import vf
 
 LEVEL = "proof"
 CLAIM = dict(cat="proof", design="§3 C08, Appendix A.4, §2.1 E-S",
-   text="30 Coq theorems (no axioms) over a small-step interleaving model, one step = one atomic operation, of AtomicValue (CAS lock/unlock, fetch-add, the CAS loop of max), "
+   text="48 Coq theorems (no axioms) over a small-step interleaving model, one step = one atomic operation, of AtomicValue (CAS lock/unlock, fetch-add, the CAS loop of max), "
         "LockFree::add (load + CAS loop), ThreadLock (CAS spin), ThreadSafeVector get_free_element[_safe]/free_element (cursor modulo size with the 2^64 wrap, occupancy and statistics "
         "counters), Task::lock_dependency/unlock_dependency (two locks, rollback) and TaskQueue add_task/get_task/try_get_task (queue lock, scan from the top, gap closing), for EVERY number "
         "of threads, EVERY pool size, EVERY task table, EVERY number of queues and EVERY schedule of clients that obey the interface contract (inductive invariants over all reachable states): "
@@ -15,13 +15,27 @@ CLAIM = dict(cat="proof", design="§3 C08, Appendix A.4, §2.1 E-S",
         "(pre/post_increment and LockFree::add), max_is_max, lock_exclusive (lock word = holder), queue critical section exclusive, queue_hands_out_once (queue + returned + about to be "
         "returned = added, as multisets), handout_owns_all_resources, rollback_leaves_no_lock (no lock leaked by any failed attempt), free_resources_imply_handout (a get_task running alone on "
         "a queue that contains a task with all locks free returns a task - no side condition for the code as it is now), and Task::set_extra_dependency as repaired for D2: a task given the "
-        "same lock twice has one dependency, is handed out with it and releases one lock, whereas in the pinned variant (model switch dedup = false) it is provably never handed out. Tie: on every run the real classes are executed by real threads under a deterministic scheduler (guarded yield hook before each atomic operation, hook H1) on "
-        "exhaustive and seeded schedules; the extracted model runs the same schedules and every step (operation, variable, value before/after, return value, complete shared state) is compared.",
+        "same lock twice has one dependency, is handed out with it and releases one lock, whereas in the pinned variant (model switch dedup = false) it is provably never handed out. "
+        "The QUIESCENT (non-thread-safe) pool methods clear(), clear_after(offset) and get_free_elements(size) are model steps enabled only while no thread has a pool operation in flight "
+        "(they are called by the master thread outside the parallel regions: TaskBasedIonizationSimulation _tasks->clear(), TaskBasedRadiationHydrodynamicsSimulation "
+        "tasks->clear_after(radiation_task_offset)) and under the contract the code relies on (clear_after: offset <= size and every slot below offset is held - what _number_taken.set(offset) "
+        "assumes; handles from offset onwards are dropped): the pool theorems are re-proved for the extended reachability relation reachq (C08_q_slot_exclusive, _inflight, _held_once, "
+        "_flag_iff_owned, _occupancy_exact_when_quiescent / _when_pool_quiet, _occupancy_inflight_bound, _get_succeeds_when_quiescent, _get_succeeds_iff_free: a get on a quiescent pool obtains a "
+        "slot iff one is free, otherwise it is refused and never spins), and C08_clear_after_establishes states exactly what the call leaves from ANY such state (cursor anywhere: pool filled "
+        "to its last slot, cursor gone around the pool or wrapped at 2^64): flags set = the slots below offset that were held (same holders), every slot from offset onwards free and in nobody's "
+        "view, counter = slots held = flags set = offset, cursor = offset, a following get succeeds iff a slot is free; C08_clear_establishes, C08_get_free_elements_establishes likewise; "
+        "C08_clear_after_contract_necessary (with a free slot below offset the counter is wrong) and C08_permanent_block_stays_held (the block stays held while nobody frees one of its slots). Tie: on every run the real classes are executed by real threads under a deterministic scheduler (guarded yield hook before each atomic operation, hook H1) on "
+        "exhaustive and seeded schedules; the extracted model runs the same schedules and every step (operation, variable, value before/after, return value, complete shared state) is compared; "
+        "schedules contain barriers (end of a parallel region) at which the master thread calls the real clear/clear_after/get_free_elements (pools filled to the last slot, cursor wrapped, slots held "
+        "above and below the offset) and the model performs the corresponding step; client views and the complete state are compared after the call.",
    note="C++11 seq_cst atomics are modelled as sequentially consistent interleaving (what std::atomic defaults guarantee); plain non-atomic reads/writes (queue array and size under the queue "
         "lock) are modelled as atomic, executed together with the preceding atomic operation of the same thread - stated, not verified; compare_exchange_weak is assumed not to fail spuriously "
         "(true for lock cmpxchg on x86-64). Progress theorems are about a thread that runs alone from the given state (no fairness assumption is made about schedules). Queue capacity is a "
         "client obligation (add_task does not check it without assertions). Not modelled: MemorySpace::add_photons overflow copy (sequential, no atomic operation of its own beyond "
-        "get_free_buffer), Scheduler::get_task's choice among queues (it only composes get_task/try_get_task), the non-thread-safe clear/get_free_elements methods. "
+        "get_free_buffer), Scheduler::get_task's choice among queues (it only composes get_task/try_get_task), ThreadSafeVector::clear_fast (asserts an empty pool and resets the cursor only). "
+        "The quiescent methods are ONE model step each (plain loops and stores by the only running thread); that their callers run them outside parallel regions, with the contract of clear_after "
+        "(the hydro tasks occupy slots [0, offset), are created first from the empty pool and are never freed; offset = tasks->size()) is read off the two call sites, not verified here. "
+        "The q-theorems need 0 < pool size (index = cursor % size). get_free_elements has no caller in the tree. "
         "Trusted: Coq kernel; ExtrOcamlBasic extraction + OCaml driver, harness scheduler and yield hook (correspondence only). Needs /verif/hooks/c08_yield.patch applied to the repository.",
    technique="inductive invariants over all reachable states of an interleaving model + deterministic-scheduler differential correspondence (exhaustive small scope + seeded random)")
 
@@ -43,13 +57,16 @@ def hook_present():
 # ------------------------------------------------------------------------------------------
 # cases
 def case_text(cid, c):
-    """c: dict(nthr, psize, cur0, nlocks, nctr, tasks=[(d0,d1)], nq, kind, progs=[[tok]], sched=[t], cap)"""
+    """c: dict(nthr, psize, cur0, nlocks, nctr, tasks=[(d0,d1)], nq, kind, progs=[[tok]], sched=[t], cap[, qprog=[tok]])
+    "|" in a program = barrier; qprog = the quiescent pool calls of the master thread (c, k<off>, n<t>:<cnt>), one per serial section"""
     out = ["case %s" % cid,
            "cfg %d %d %d %d %d %d %d %d" % (c["nthr"], c["psize"], c["cur0"], c["nlocks"], c["nctr"], len(c["tasks"]), c["nq"], c["kind"])]
     for k, (a, b) in enumerate(c["tasks"]):
         out.append("task %d %d %d" % (k, a, b))
     for t, p in enumerate(c["progs"]):
         out.append("prog %d %s" % (t, " ".join(p)))
+    if c.get("qprog"):
+        out.append("qprog " + " ".join(c["qprog"]))
     s = c["sched"]
     for i in range(0, len(s), 64):
         out.append("sched " + " ".join(map(str, s[i:i + 64])))
@@ -90,14 +107,101 @@ def corpus():
     # is handed out with it, and unlock_dependency releases exactly that one lock
     cs.append(("samelock", base_case(2, 1, [["A0:0", "T0", "U0", "A0:1", "Y0", "U0"], ["T0", "U0", "t0", "u0", "D0", "U0", "T0", "U0"]],
                                      nlocks=2, tasks=[(0, 0), (1, 1)], nq=1)))
+    # ---- quiescent pool operations (clear_after / clear / get_free_elements), called by the master thread between
+    # parallel regions ("|" = barrier).  The pattern of TaskBasedRadiationHydrodynamicsSimulation: a permanent block
+    # taken first (thread 0, serially), then get/free traffic, then clear_after(block) with slots still held above it.
+    # pool filled EXACTLY to its last slot (cursor == size) when clear_after is called; afterwards all freed slots
+    # must be obtainable again; second round: cursor wrapped around the pool
+    cs.append(("qfull", base_case(2, 4, [["G", "G", "|", "g", "|", "g", "g", "|", "g"], ["|", "g", "|", "g", "f0", "g", "|", "g", "g"]],
+                                  qprog=["k2", "k2", "k2", "k2"])))
+    # cursor goes around a pool of three several times (get/free churn) with one slot held above the block of one
+    cs.append(("qwrap", base_case(2, 3, [["G", "|", "g", "f0", "g", "f0", "g", "|", "g", "g"], ["|", "g", "f0", "g", "f0", "g", "f0", "g", "|", "g", "f0", "g"]],
+                                  qprog=["k1", "k1", "k1"])))
+    # the same across the 2^64 wrap of the cursor (MemorySpace), block taken by get_free_elements
+    cs.append(("qwrap64", base_case(2, 3, [["|", "g", "f0", "g", "|", "g", "|", "|", "g", "|", "g"], ["|", "g", "g", "f1", "g", "|", "g", "g", "|", "|", "g", "g", "|", "g"]],
+                                    cur0=W64 - 2, kind=1, qprog=["k0", "k0", "c", "n0:1", "k1"])))
+    # clear() with slots held by everybody, get_free_elements on the emptied pool, block == pool size (every get refused)
+    cs.append(("qclear", base_case(2, 2, [["g", "|", "g", "|", "|", "g", "|", "g"], ["g", "|", "g", "|", "|", "g", "|", "g", "f0"]],
+                                   qprog=["c", "c", "n1:2", "k2", "k0"])))
     # three threads
+    cs.append(("qfull3t", base_case(3, 4, [["G", "|", "g", "|", "g"], ["|", "g", "|", "g"], ["|", "g", "f0", "g", "|", "g"]], qprog=["k1", "k1", "k1"])))
     cs.append(("pool3t", base_case(3, 2, [["g", "f0"], ["g", "f0"], ["g", "f0"]])))
     cs.append(("queue3t", base_case(3, 1, [["A0:0", "A0:1", "T0", "U0"], ["T0", "U0", "T0"], ["Y0", "U0", "T0", "U0"]], nlocks=2, tasks=T2 + [(1, -1)], nq=1)))
     return cs
 
 
+def gen_quiescent(rng):
+    """pool traffic in parallel regions separated by serial sections in which the master thread calls
+    clear_after / clear / get_free_elements (the usage pattern of the task pool of the RHD driver)"""
+    nthr = 2 + rng.below(3)
+    psize = 1 + rng.below(5)
+    off = rng.below(min(psize, 3) + 1)
+    c = base_case(nthr, psize, [], kind=rng.below(2))
+    c["cur0"] = rng.choice([0, 0, 0, 1, psize, W64 - 1, W64 - 2, W64 - 1 - psize, rng.below(1000)])
+    nphase = 2 + rng.below(4)
+    progs = [[] for _ in range(nthr)]
+    qprog = []
+
+    def serial(tok):
+        # end of a parallel region: every thread waits at a barrier, the master thread makes one call
+        for p in progs:
+            p.append("|")
+        qprog.append(tok)
+
+    def traffic(last=False):
+        style = rng.below(3)
+        for t in range(nthr):
+            n = rng.below(3) if (t == 0 and not last) else 1 + rng.below(2 + psize)
+            for j in range(n):
+                if t == 0 and not last:
+                    # the holder of the block never frees (its newest slot could be a block slot after a refused get)
+                    tok = "g"
+                elif style == 0:
+                    tok = rng.choice(["g", "g", "g", "f0", "f1"])          # fills up, keeps slots
+                elif style == 1:
+                    tok = "g" if j % 2 == 0 else "f0"                       # churn: the cursor runs around the pool
+                else:
+                    tok = rng.choice(["g", "f0", "f0", "g", "f1"])
+                progs[t].append(tok)
+
+    # region 0: the permanent block, by thread 0 alone (get_free_element, as make_hydro_tasks does) or by get_free_elements
+    if rng.below(2) == 0:
+        progs[0] += ["G"] * off
+        serial("k%d" % off)
+    else:
+        serial("n0:%d" % off)
+    for ph in range(nphase):
+        traffic()
+        r = rng.below(10)
+        if r < 7:
+            serial("k%d" % off)
+        elif r == 7:
+            serial("k%d" % rng.below(psize + 2))      # another offset: skipped unless its contract holds
+        elif r == 8:
+            serial("c")
+            off = rng.below(min(psize, 3) + 1)
+            serial("n0:%d" % off)                     # a new block on the emptied pool
+        else:
+            serial("k0")
+            off = 0
+    traffic(last=True)                                 # what was released must be obtainable again
+    c["progs"] = progs
+    c["qprog"] = qprog
+    # bursts of one thread (the round-robin tail alone would let every requester pass the "pool full?" test together)
+    L = 150 + rng.below(500)
+    maxburst = rng.choice([1, 3, 9, 16])
+    s = []
+    while len(s) < L:
+        s += [rng.below(nthr)] * (1 + rng.below(maxburst))
+    c["sched"] = s
+    c["cap"] = 450     # a requester that passed the "pool full?" test together with others may spin until a slot is freed: bounded
+    return c
+
+
 def gen_random(rng, idx):
-    fam = idx % 5
+    fam = idx % 6
+    if fam == 5:
+        return gen_quiescent(rng)
     nthr = 2 + rng.below(3)
     psize = 1 + rng.below(4)
     c = base_case(nthr, psize, [], kind=rng.below(2))
@@ -204,9 +308,34 @@ def oracle(c, block):
     inc_done = {}
     lf_done = {}
     max_done = {}
+    released = {}    # slot -> how it was released; until it is handed out again its flag must be clear at quiescence
+    idle_all = True
     step = 0
     for l in block:
-        if l.startswith("s "):
+        if l.startswith("q "):
+            # a quiescent call of the master thread: "q <text> <ok|skipped> H:..."
+            f = l.split()
+            o = f[1].split(":")
+            if f[2] != "ok":
+                continue
+            if not idle_all:
+                return "harness: quiescent call %s after step %d while an operation is in flight" % (f[1], step)
+            if o[0] == "clear" or o[0] == "clear_after":
+                off = int(o[1]) if o[0] == "clear_after" else 0
+                if off > psize or any(i not in slot_owner for i in range(off)):
+                    return "client contract broken by the harness (%s after step %d: slots below the offset are not all held)" % (f[1], step)
+                for i in [i for i in slot_owner if i >= off]:
+                    del slot_owner[i]          # the handles from the offset onwards are dropped by their holders
+                for i in range(off, psize):
+                    released[i] = "%s after step %d" % (f[1].replace(":", "(") + (")" if ":" in f[1] else "()"), step)
+            elif o[0] == "get_free_elements":
+                t, n = int(o[1]), int(o[2])
+                if slot_owner or n > psize:
+                    return "client contract broken by the harness (%s after step %d on a pool that is not empty)" % (f[1], step)
+                for i in range(n):
+                    slot_owner[i] = t
+                    released.pop(i, None)
+        elif l.startswith("s "):
             step += 1
             f = l.split()
             t, name, obj = int(f[1]), f[2], f[3]
@@ -224,6 +353,7 @@ def oracle(c, block):
                     if slot_owner.get(i) != t:
                         return "client contract broken by the harness (free of a slot not owned) at step %d" % step
                     del slot_owner[i]
+                    released[i] = "free_element(%d) of thread %d started at step %d" % (i, t, step)
                 elif o[0] == "unlock":
                     if lock_holder.get(int(o[1])) != ("T%d" % t):
                         return "client contract broken by the harness (unlock of a lock not held) at step %d" % step
@@ -244,6 +374,7 @@ def oracle(c, block):
                         if i in slot_owner:
                             return "slot %d returned to thread %d at step %d while thread %d still holds it" % (i, t, step, slot_owner[i])
                         slot_owner[i] = t
+                        released.pop(i, None)
                     elif i > psize:
                         return "get returned the out-of-range index %d" % i
                 elif o[0] == "lock" or (o[0] == "trylock" and ret == "1"):
@@ -293,12 +424,18 @@ def oracle(c, block):
                     if sc["free"] == -1:
                         sc["free"] = None
                         sc["step"] = -1      # nothing lockable when the scan started: clause not applicable
-            if "0" in st["I"]:
+            idle_all = "0" not in st["I"]
+            if not idle_all:
                 continue
             # no operation in flight
             nflags = st["F"].count("1")
             if not (int(st["N"]) == len(slot_owner) == nflags):
-                return "at quiescence after step %d: occupancy counter %s, slots held %d, flags set %d" % (step, st["N"], len(slot_owner), nflags)
+                leaked = [i for i in range(psize) if st["F"][i] == "1" and i not in slot_owner]
+                return ("at quiescence after step %d: occupancy counter %s, slots held %d, flags set %d" % (step, st["N"], len(slot_owner), nflags)
+                        + ("; slot(s) %s released by %s but still flagged: never handed out again" % (",".join(map(str, leaked)), released.get(leaked[0], "nobody")) if leaked else ""))
+            for i, how in released.items():
+                if i < psize and i not in slot_owner and st["F"][i] == "1":
+                    return "at quiescence after step %d: slot %d was released (%s) but its flag is still set: it can never be obtained again" % (step, i, how)
             for i in slot_owner:
                 if st["F"][i] != "1":
                     return "at quiescence after step %d: slot %d is held but its flag is clear" % (step, i)
@@ -341,7 +478,40 @@ def trace_stats(block, hist):
     curop = {}
     nontriv = False
     h = hashlib.sha256()
+    prev = None
+    psz = None
     for l in block:
+        if l.startswith("= "):
+            prev = l
+            continue
+        if l.startswith("q "):
+            f = l.split()
+            h.update((" ".join(f[1:3]) + ";").encode())
+            name = f[1].split(":")[0]
+            key = "quiescent %s %s" % (name, "called" if f[2] == "ok" else "skipped (contract does not hold)")
+            hist[key] = hist.get(key, 0) + 1
+            if f[2] == "ok" and name in ("clear_after", "clear") and prev:
+                st = parse_state(prev)
+                off = int(f[1].split(":")[1]) if name == "clear_after" else 0
+                n = len(st["F"])
+                cur = int(st["C"])
+                tags = []
+                if "0" not in st["F"]:
+                    tags.append("pool full")
+                if cur == n:
+                    tags.append("cursor == size (filled exactly to the last slot)")
+                if cur > n:
+                    tags.append("cursor > size (went around the pool or wrapped at 2^64)")
+                if "1" in st["F"][off:]:
+                    tags.append("slots held from the offset onwards")
+                    if "1" in st["F"][max(off, cur % n):]:
+                        tags.append("slots held at or above cursor % size")
+                for tg in tags:
+                    k2 = "quiescent %s with %s" % (name, tg)
+                    hist[k2] = hist.get(k2, 0) + 1
+                if tags:
+                    nontriv = True
+            continue
         if not l.startswith("s "):
             continue
         f = l.split()
@@ -509,7 +679,10 @@ def run(ck):
                    "EVERY step is compared (thread, atomic operation, variable, value before and after, return value of a completed client operation, and the complete shared state: "
                    "pool flags, cursor, occupancy/max/total counters, locks, counters, queue locks and contents, idle flags). Pools of 1-4 slots (ThreadSafeVector<Task> and MemorySpace), "
                    "cursor started at 0 and just below 2^64, 1-3 locks, 1-6 tasks with 0/1/2 dependencies, 1-2 queues. non-trivial = the real trace contains a failed CAS, a full pool, "
-                   "or a rollback of the first dependency; distinct = distinct sequence of (thread, operation, variable) of the real trace")
+                   "a rollback of the first dependency, or a quiescent clear/clear_after on a pool that is full, whose cursor is >= size, or that has slots held from the offset onwards; "
+                   "distinct = distinct sequence of (thread, operation, variable) of the real trace. Quiescent family: programs with barriers; at every barrier (all threads idle) the master thread "
+                   "calls clear_after(off) / clear() / get_free_elements(n) on the real pool when the contract of the method holds (else the call is skipped, on both sides), pools of 1-5 slots, "
+                   "block of 0-3 permanent slots taken serially first, cursor started at 0, at size, and just below 2^64; the held-slot views of all threads and the complete state are compared after the call")
     cov["exhaustive"] = bounds
     cov["exhaustive_schedules"] = nexh
     cov["random_schedules"] = nrand
@@ -521,6 +694,7 @@ def run(ck):
         "seq_cst atomics = sequentially consistent interleaving of atomic operations; plain accesses to the queue array/size are executed with the preceding atomic operation of the same thread (modelled as atomic, not verified)",
         "compare_exchange_weak (LockFree::add) does not fail spuriously (x86-64 lock cmpxchg); size_t is 8 bytes (printed by the harness and checked)",
         "client contract (hypothesis of the theorems, enforced by the case generator and re-checked by the oracle on every real log it examines): free only a slot you hold, unlock only a lock you locked, unlock_dependency only of a task you were handed; queue capacity is not exceeded",
+        "contract of the non-thread-safe pool methods (hypothesis qpre of the q-theorems, decided by qpre_b in the model driver and on the real flags in the harness before every call, re-checked by the oracle): no pool operation in flight; clear_after(offset): offset <= size and every slot below offset is held; get_free_elements(n): empty pool, n <= size; handles from the offset onwards are dropped by their holders",
         "THREADSAFEVECTOR_STATS is defined (the statistics counters are real atomic operations and are part of the model); assertions (HAVE_ASSERTIONS) are off as in the production configuration",
         "extraction through ExtrOcamlBasic; OCaml driver, harness scheduler and yield hook trusted for the correspondence only",
     ]
